@@ -1,1 +1,149 @@
-// harness file unordered_receiver (included under cfg(kani) from /repo)
+// C14 — hook in helpers/buffers/unordered_receiver.rs: the receive side as data-structure steps
+// from an arbitrary cursor position: the ring of parked wakers, the overflow wakers, and one
+// `poll_next` over spare bytes / a scripted chunk stream with 1-byte messages (Fp31: bytes >= 31
+// do not decode, so both the Ok and the error path are taken).
+use super::*;
+use crate::ff::Fp31;
+use crate::verif_kani::common::rawwake::{waker, woken};
+use crate::verif_kani::common::*;
+
+const C: usize = 4; // capacity of the waker ring in these harnesses
+
+pub(crate) struct Chunks {
+    chunks: [&'static [u8]; 2],
+    next: usize,
+    pending: bool,
+}
+impl Stream for Chunks {
+    type Item = &'static [u8];
+    fn poll_next(mut self: Pin<&mut Self>, _cx: &mut Context<'_>) -> Poll<Option<Self::Item>> {
+        if self.pending {
+            return Poll::Pending;
+        }
+        if self.next < 2 {
+            self.next += 1;
+            Poll::Ready(Some(self.chunks[self.next - 1]))
+        } else {
+            Poll::Ready(None)
+        }
+    }
+}
+
+fn state(next: usize, spare: Vec<u8>, chunks: [&'static [u8]; 2], pending: bool) -> OperatingState<Chunks, &'static [u8]> {
+    let mut wakers = Vec::with_capacity(C);
+    let mut k = 0;
+    while k < C {
+        wakers.push(None);
+        k += 1;
+    }
+    OperatingState {
+        stream: Box::pin(Chunks { chunks, next: 0, pending }),
+        next,
+        max_polled_idx: None,
+        spare: Spare { buf: spare, offset: 0 },
+        wakers,
+        overflow_wakers: Vec::new(),
+        _marker: PhantomData,
+    }
+}
+
+harness! {
+    #[kani::unwind(6)]
+    fn x14_receiver_waker_ring_step() {
+        // park request i (next < i <= next + C) and a far-ahead request, then advance: the waker
+        // parked for the new `next` is woken exactly when `next` reaches it; far-ahead requests are
+        // woken every C/2 advances.
+        // the cursor is instantiated (symbolic cursors make the symbolic ring index explode in CBMC's
+        // post-processing: > 400 s, out of memory); the parked position i stays symbolic
+        let next: usize = if kani::any() { 0 } else { 5 };
+        let mut st = state(next, Vec::new(), [&[], &[]], true);
+        let i: usize = kani::any();
+        kani::assume(i > next && i <= next + C);
+        st.add_waker(i, &waker(0));
+        let far: usize = kani::any();
+        kani::assume(far > next + C && far < 2000);
+        st.add_waker(far, &waker(1));
+        assert!(woken(0) == 0 && woken(1) == 0);
+        let mut step = 0;
+        while step < C {
+            st.wake_next();
+            step += 1;
+            assert!(st.next == next + step);
+            assert!(woken(0) == usize::from(next + step >= i), "request i is woken exactly when next reaches i");
+            if (next + step) % (C / 2) == 0 {
+                assert!(woken(1) >= 1, "far-ahead requests are woken within C/2 advances");
+            }
+        }
+        assert!(woken(0) == 1 && woken(1) == 1, "each parked waker is used once");
+        kani::cover!(i == next + C);
+        std::mem::forget(st);
+    }
+}
+
+harness! {
+    #[kani::unwind(6)]
+    fn x14_receiver_poll_next_step() {
+        // one poll for the next record, data either in the spare buffer or in the next chunk(s)
+        let data: &'static [u8; 2] = Box::leak(Box::new(kani::any()));
+        let next: usize = if kani::any() { 0 } else { 7 };
+        let in_spare: bool = kani::any();
+        let empty_first: bool = kani::any();
+        let mut st = if in_spare {
+            state(next, vec![data[0], data[1]], [&[], &[]], true)
+        } else if empty_first {
+            state(next, Vec::new(), [&[], &data[..]], false)
+        } else {
+            state(next, Vec::new(), [&data[..], &[]], false)
+        };
+        // the request for the following record is parked
+        st.add_waker(next + 1, &waker(0));
+        let w = waker(3);
+        let mut cx = Context::from_waker(&w);
+        match st.poll_next::<Fp31>(&mut cx) {
+            Poll::Ready(Ok(m)) => {
+                assert!(data[0] < 31 && crate::verif_kani::c08_prime::rd31(m) == data[0], "record `next` is the next byte of the stream");
+            }
+            Poll::Ready(Err(e)) => {
+                assert!(data[0] >= 31, "an error only for an undecodable record");
+                std::mem::forget(e);
+            }
+            Poll::Pending => assert!(false, "data is available"),
+        }
+        assert!(st.next == next + 1, "the record was consumed");
+        assert!(woken(0) == 1, "the request for the following record is woken, also after a decoding error");
+        // the following record is served from the spare bytes
+        match st.poll_next::<Fp31>(&mut cx) {
+            Poll::Ready(Ok(m)) => assert!(data[1] < 31 && crate::verif_kani::c08_prime::rd31(m) == data[1]),
+            Poll::Ready(Err(e)) => {
+                assert!(data[1] >= 31);
+                std::mem::forget(e);
+            }
+            Poll::Pending => assert!(false),
+        }
+        assert!(st.next == next + 2);
+        kani::cover!(data[0] >= 31);
+        kani::cover!(!in_spare && empty_first);
+        std::mem::forget(st);
+    }
+}
+
+harness! {
+    #[kani::unwind(6)]
+    fn q14_receiver_end_of_stream() {
+        let next: usize = kani::any();
+        kani::assume(next < 1000);
+        let mut st = state(next, Vec::new(), [&[], &[]], false);
+        let w = waker(3);
+        let mut cx = Context::from_waker(&w);
+        match st.poll_next::<Fp31>(&mut cx) {
+            Poll::Ready(Err(Error::EndOfStream(EndOfStreamError(r)))) => assert!(usize::from(r) == next),
+            other => {
+                std::mem::forget(other);
+                assert!(false, "end of stream is reported for the record that was being awaited");
+            }
+        }
+        assert!(st.next == next);
+        kani::cover!(true);
+        std::mem::forget(st);
+    }
+}
